@@ -99,7 +99,7 @@ def jacobi(matrix, maxsweeps):
             dnorm += fabs(eigenval[j])
             for i in range(j):
                 onorm += fabs(matrix[i][j])
-        if onorm / dnorm <= 1.0e-12:
+        if onorm <= 1.0e-12 * dnorm:  # (not onorm / dnorm: the diagonal can be all zero)
             break  # goto Exit_now;
         for j in range(1, 4):
             for i in range(j):
